@@ -1,5 +1,5 @@
 '''C10 - numbers read from Tripoli-4 and Apollo3 outputs.'''
-from ..rules import parsers
+from ..rules import parsers, patterns
 from ..variants import parsers as _v
 
 ID = 'C10'
@@ -45,7 +45,13 @@ def check(ctx):
     ctx.run(parsers.check_zip_order)
     ctx.run(parsers.check_instance_cache)
     ctx.run(parsers.check_edge_exact)
+    ctx.run(patterns.check_patterns, ID)
+
+
+def _variants(program):
+    return _v.variants(program, ID)
 
 
 def variants(program):
-    return _v.variants(program, ID)
+    from ..variants import patterns as _pv
+    return list(_variants(program)) + _pv.variants(program, ID)
